@@ -24,7 +24,7 @@ def executable_lines(path: str) -> set:
     top = compile(src, path, "exec")
     lines = set()
     for c in _code_objects(top):
-        if c is top:
+        if c is top or not (c.co_flags & 0x1):   # module and class bodies run at import
             continue
         for _, _, ln in c.co_lines():
             if ln is not None and ln > 0 and ln != c.co_firstlineno:
